@@ -320,3 +320,8 @@ func Msg(ch uint16, t uint64, z int, seq uint32) Op {
 }
 func Att(a *ref.Attachment) Op { return Op{Kind: KAttachment, A: a} }
 func Met(d *ref.Metadata) Op   { return Op{Kind: KMetadata, D: d} }
+
+// C2Alt is a channel with id 9 used by the interleaving workloads.
+func C2Alt() *ref.Channel {
+	return &ref.Channel{ID: 9, SchemaID: 0, Topic: "t9", MessageEncoding: "q", Metadata: []ref.KV{{K: "x", V: "y"}, {K: "a", V: "b"}}}
+}
